@@ -49,7 +49,9 @@ def leb_unsigned(R):
         atoms = _out_atoms(res)
         val, pos, wf = leb.udec_stream(atoms, 0)
         return [("wellformed", z3.And(*wf)), ("decodes", val == v.t), ("consumed", pos == len(atoms)),
-                ("length", len(atoms) <= 5)]
+                ("length", len(atoms) <= 5),
+                # the exact length (minimal encoding): this is the definition of uleblen that the section writers' contracts use
+                ("length-exact", z3.IntVal(len(atoms)) == leb.uleblen_def(v.t))]
 
     def replay(model, clause):
         return script("""
@@ -58,8 +60,10 @@ def leb_unsigned(R):
             v = {{v}}
             bs = W.PackInteger(v)
             d, pos = udec(bs)
-            print('PackInteger', v, '->', bs.hex(), 'decodes to', d)
-            if d != v or pos != len(bs) or len(bs) > 5: print('REPLAY-CONFIRMED')
+            n = 1
+            while (v >> (7 * n)) > 0: n += 1
+            print('PackInteger', v, '->', bs.hex(), 'decodes to', d, '; minimal length', n)
+            if d != v or pos != len(bs) or len(bs) != n: print('REPLAY-CONFIRMED')
             """.replace("{{dec}}", leb.PY_DECODERS), v=model.get("v", 0))
 
     verify(R, "C19.leb.unsigned", W + "::PackInteger", run, replay)
@@ -427,7 +431,7 @@ class _LebCut:
             raise TypeError(f"unsupported operand type for the integer argument: '{type(i).__name__}'")
         t = term(i)
         self.requires.append(z3.And(t >= 0, t < 2 ** 32))
-        self.facts.append(z3.And(leb.uleblen(t) >= 1, leb.uleblen(t) <= 5))
+        self.facts.append(leb.uleblen(t) == leb.uleblen_def(t))      # proved for all v in [0, 2^32) by C19.leb.unsigned.length-exact
         output.write(leb.ULEB(t))
 
 
@@ -482,20 +486,22 @@ _SECTIONS = [
 @family("C19.frame", props=["C19", "C07"],
         functions=[W + f"::{s}.WriteTo" for s, _, _, _ in _SECTIONS] + [W + "::FunctionSection.WriteTo", W + "::Code.Encode"],
         assumptions=[SHIMS, "modular cut: WriteInteger is replaced by its contract (proved by C19.leb.unsigned/C19.leb.write on [0,2^32)) inside the section writers; its precondition is an obligation of the writer",
-                     "entries are opaque blobs of unconstrained symbolic byte length (< 2^28 each); the entry loop is executed for 0..3 entries (same loop body for every entry; entry count is the only bounded parameter)"])
+                     "entries are opaque blobs of unconstrained symbolic byte length (< 2^28 each; < 2^20 each for the large counts); the entry loop is executed for 0..3 and 128 entries (thorough tier: 0..6, 127, 128, 130, 300) -- the same loop body for every entry; the entry count is the only bounded parameter"])
 def frame(R):
     """Each section writer appends nothing, or [id] ++ uleb(|payload|) ++ payload with payload = uleb(count) ++ entries;
     each code body is uleb(|body|) ++ body."""
     for sname, add, sid, prefixed in _SECTIONS:
         cls = resolve(W + "::" + sname)
-        for k in ((0, 1, 2, 3) if R.tier != "thorough" else (0, 1, 2, 3, 4, 5, 6)):       # entries per section (thorough tier: up to 6)
+        # entries per section: small counts, and counts whose own LEB128 encoding takes two bytes (128, 130) -- a size computed with
+        # "1 byte for the count" is right below 128 and wrong from there on
+        for k in ((0, 1, 2, 3, 128) if R.tier != "thorough" else (0, 1, 2, 3, 4, 5, 6, 127, 128, 130, 300)):
             def run(ctx, k=k, cls=cls, add=add, sid=sid, prefixed=prefixed, sname=sname):
                 sec = cls()
                 entries = []
                 for j in range(k):
                     n = ctx.int(f"n{j}")
                     ctx.assume(n >= 0)
-                    ctx.assume(n < 2 ** 28)
+                    ctx.assume(n < (2 ** 28 if k <= 8 else 2 ** 20))      # (the whole section has to stay below 2^32 bytes)
                     e = _Entry(f"e{j}", n)
                     entries.append(e)
                     getattr(sec, add)(e)
